@@ -69,6 +69,7 @@ def new_game(case):
             turn=t, first_turn=t, max_turns=case.get("max_turns"),
             **({"public_hud": {}} if case.get("hud0") == "empty" else {}))
     g._cv_fake = fake
+    g._cv_ints = bool(case.get("ints"))
     return g
 
 
@@ -78,7 +79,7 @@ def canon_melds(melds):
 
 def observe_view(g, is1):
     try:
-        v = g.to_dict(is1)
+        v = g.to_dict((1 if is1 else 0) if getattr(g, "_cv_ints", False) else is1)
     except Exception as e:
         return "!" + type(e).__name__
     return {"hand": list(v["hand"]), "points": v["points"], "top": v["top_of_discard"], "lfd": v["last_draw_from_discard"],
@@ -89,7 +90,7 @@ def observe_view(g, is1):
 
 def observe(g):
     def act(is1):
-        a = g.get_action(is1)
+        a = g.get_action((1 if is1 else 0) if getattr(g, "_cv_ints", False) else is1)
         return a.value if a is not None else "none"
     o = {"deck": list(g.deck), "discard": list(g.discard), "p1": list(g.p1_hand), "p2": list(g.p2_hand),
          "turn": g.turn.value, "complete": bool(g.is_complete), "turns": g.turns, "shuffles": g.shuffles,
@@ -130,11 +131,14 @@ def apply_op(g, op):
         if k == "pass":
             g.first_turn_pass()
         elif k == "draw":
-            g.draw_card(bool(op["d"]))
+            d = bool(op["d"])
+            g.draw_card((1 if d else 0) if getattr(g, "_cv_ints", False) else d)     # `ints` cases: 1/0 for True/False
         elif k == "discard":
             g.discard_card(op["c"])
         elif k == "knock":
-            g.decide_knock(bool(op["knocks"]), [list(m) for m in op["melds"]] if op.get("melds") is not None else None)
+            kn = bool(op["knocks"])
+            g.decide_knock((1 if kn else 0) if getattr(g, "_cv_ints", False) else kn,
+                           [list(m) for m in op["melds"]] if op.get("melds") is not None else None)
         else:
             raise RuntimeError("bad op")
       return "ok", ""
@@ -150,7 +154,18 @@ def run_ops(case):
         rec["ctor"] = {"err": type(e).__name__}
         return rec
     rec["ctor"] = observe(g)
-    for op in case["ops"]:
+    fork_at = case.get("fork_at"); forked = None; nreal = 0
+    for oi, op in enumerate(case["ops"]):
+        if fork_at is not None and forked is None and not op.get("probe"):
+            if nreal == fork_at:
+                if case.get("fork_mode") == "stale":
+                    # play goes on with a deep copy while the original stays behind, frozen in this state (and alive)
+                    rec.setdefault("_frozen", []).append(g)
+                    g = copy.deepcopy(g)
+                    forked = (oi, None)
+                else:
+                    forked = (oi, copy.deepcopy(g))     # a deep copy of the live game, continued after the original (see below)
+            nreal += 1
         tgt = g
         if op.get("probe"):
             tgt = copy.deepcopy(g)
@@ -166,6 +181,19 @@ def run_ops(case):
             if not st["unchanged"]:
                 st["s_rej"] = after     # the object lives on in this state: invariants must still hold in it
         rec["steps"].append(st)
+    rec.pop("_frozen", None)
+    if forked is not None and forked[1] is not None:
+        oi0, c = forked
+        fsteps = []
+        for op in case["ops"][oi0:]:
+            if op.get("probe"):
+                fsteps.append(None); continue
+            r, e = apply_op(c, op)
+            st = {"r": r, "e": e}
+            if r == "ok":
+                st["s"] = observe(c)
+            fsteps.append(st)
+        rec["fork"] = {"from": oi0, "steps": fsteps}
     return rec
 
 
@@ -343,6 +371,11 @@ def gen_game(rng):
             "deck": stock, "discard": [d[2 * n]], "p1": d[:n], "p2": d[n:2 * n],
             "turn": rng.choice(["p1-draws-first", "p2-draws-first"]),
             "shuffle": [rng.randrange(4), rng.randrange(0, 20)], "ops": []}
+    if rng.random() < 0.3:
+        case["ints"] = True          # seat / pile / knock flags given as 1 and 0 instead of True and False
+    if rng.random() < 0.3:
+        case["fork_at"] = rng.choice([0, 1, 2, 3, 4, 6, 9, 15])
+        case["fork_mode"] = rng.choice(["late", "stale"])
     if rng.random() < 0.2:
         # long ricky games that exhaust the stock (several times): a shuffled (melds are rare) deal, a short stock, no
         # turn limit, and `play` keeps the hands away from gin -- the discards are reshuffled into a new stock
